@@ -543,6 +543,19 @@ C10Clauses(step) == IF IsRT(step, "json") THEN {C10_wf_json(step), C10_read_json
                     ELSE IF IsRT(step, "xml") THEN {C10_wf_xml(step), C10_read_xml(step)} ELSE {}
 
 -----------------------------------------------------------------------------
+(* C13 — exporting never mutates the document and is repeatable                 *)
+(* step.res.items = Seq([ex, exc, prev: "same"|"diff"|"first", twin: "same"|"diff"]) *)
+C13_pure(step) ==
+  Cl("C13_pure", step.op.op = "Export", \A h \in DOMAIN step.pre.con : SameCon(step, h))
+C13_repeat(step) ==
+  Cl("C13_repeat", step.op.op = "Export" /\ \E i \in 1..Len(step.res.items) : step.res.items[i].prev # "first",
+     \A i \in 1..Len(step.res.items) : step.res.items[i].prev # "diff")
+C13_twin(step) ==
+  Cl("C13_twin", step.op.op = "Export", \A i \in 1..Len(step.res.items) : step.res.items[i].twin # "diff")
+C13Clauses(step) == IF step.op.op = "Export" /\ step.exc = "none"
+                    THEN {C13_pure(step), C13_repeat(step), C13_twin(step)} ELSE {}
+
+-----------------------------------------------------------------------------
 (* Conformance (drift) clauses: the model's post-state against the logged   *)
 (* one.  A failure here never becomes a VIOLATION (DESIGN 2.5).             *)
 M_Names(msPost, mres, step) ==
